@@ -78,6 +78,7 @@ func VerifyFunction(prog *ssa.Program, db *ContractDB, fn *ssa.Function, fc *Fun
 	st := &State{enc: enc, regs: map[ssa.Value]Value{}, cells: map[ssa.Value]Value{}, heap: map[string]Term{}, prefEp: map[string]int{}, inLoop: map[*ssa.BasicBlock]bool{}, unroll: map[*ssa.BasicBlock]int{}, decr: map[*ssa.BasicBlock]Term{}, rangePos: map[ssa.Value]Term{}, promoted: map[ssa.Value]Term{}}
 	st.hwm = enc.declare("hwm0", SInt)
 	st.assume(Gt(st.hwm, I(0)))
+	enc.epochHwm[0] = st.hwm
 	fv.params = map[string]Value{}
 	for _, p := range fn.Params {
 		v := st.freshValue(p.Name(), p.Type())
